@@ -36,7 +36,7 @@ def failing(prog, prop):
         return None, f'ANALYSIS-ERROR {e}'
     except Exception as e:  # noqa
         return None, f'CHECKER-ERROR {e!r}'
-    return {o.key: o for o in ctx.obligations if not o.ok}, None
+    return {o.key: o for o in ctx.obligations if not o.ok}, None  # violated and not-recognised alike; told apart by .recognised
 
 
 def work(args):
@@ -51,7 +51,7 @@ def work(args):
     got, err = failing(v, prop)
     if err:
         return patch_path, prop, [err[:300]]
-    return patch_path, prop, [f'{o.file}:{o.line}: [{o.rule}] {o.construct}: {o.message[:200]}' for k, o in got.items() if k not in base]
+    return patch_path, prop, [('' if o.recognised else 'NOT-RECOGNISED ') + f'{o.file}:{o.line}: [{o.rule}] {o.construct}: {o.message[:200]}' for k, o in got.items() if k not in base]
 
 
 def main():
